@@ -196,6 +196,21 @@ def return_paths(fi):
     return withv, bare, fall
 
 
+def iterations(funcnode):
+    """Every iteration construct of a function: for loops and comprehension generators, as (iter ast, target ast, [nodes iterated over],
+    the construct).  Lets a rule accept `for d in R: f(d)` and `[f(d) for d in R]` alike."""
+    out = []
+    for n in ast.walk(funcnode):
+        if isinstance(n, ast.For):
+            out.append((n.iter, n.target, list(n.body), n))
+        elif isinstance(n, (ast.ListComp, ast.SetComp, ast.GeneratorExp, ast.DictComp)):
+            for k, g in enumerate(n.generators):
+                inner = [x for x in ([n.elt] if not isinstance(n, ast.DictComp) else [n.key, n.value])] + list(g.ifs) + \
+                        [x for g2 in n.generators[k + 1:] for x in [g2.iter] + list(g2.ifs)]
+                out.append((g.iter, g.target, inner, n))
+    return out
+
+
 def flat_body(funcnode):
     """Top-level statements of a function with `try: <body> finally: pass`-style wrappers (no handlers, trivial finally) removed."""
     body = list(funcnode.body)
